@@ -51,3 +51,46 @@ Print Assumptions C17_debug_reader_public.
 Print Assumptions C17_debug_chunk_state_public.
 Print Assumptions C17_zeroize_hasher.
 Print Assumptions C17_zeroize_reader.
+
+(* --- the Zeroize / Debug impls of src/lib.rs as translated into data (gen/GenSecret.v, tools/gen_coq_secret.py) ----- *)
+From Coq Require Import String.
+From V Require Import gen.GenSecret Proofs.GenSecretP.
+Open Scope string_scope.
+
+(* every Zeroize impl destructures ALL declared fields (no `..`), skips at most `platform`, and calls .zeroize() on every
+   other field exactly once (the translator rejects any other statement in the body) *)
+Theorem C17_src_zeroize_bodies :
+  zeroize_complete fields_Hash zeroize_pattern_Hash zeroize_calls_Hash /\
+  zeroize_complete fields_Output zeroize_pattern_Output zeroize_calls_Output /\
+  zeroize_complete fields_ChunkState zeroize_pattern_ChunkState zeroize_calls_ChunkState /\
+  zeroize_complete fields_Hasher zeroize_pattern_Hasher zeroize_calls_Hasher /\
+  zeroize_complete fields_OutputReader zeroize_pattern_OutputReader zeroize_calls_OutputReader.
+Proof. exact (conj zeroize_Hash (conj zeroize_Output (conj zeroize_ChunkState (conj zeroize_Hasher zeroize_OutputReader)))). Qed.
+Theorem C17_src_zeroize_wipes_every_field : forall fields pat calls, zeroize_complete fields pat calls ->
+  forall f, In f fields -> f = "platform" \/ In f calls.
+Proof. exact zeroize_complete_wipes. Qed.
+Theorem C17_src_zeroize_all_fields :
+  zeroize_calls_Hash = fields_Hash /\ zeroize_calls_Hasher = fields_Hasher /\ zeroize_calls_OutputReader = fields_OutputReader.
+Proof. exact zeroize_all_fields. Qed.
+Theorem C17_src_no_derived_debug :
+  ~ In "Debug" derives_Hash /\ ~ In "Debug" derives_Output /\ ~ In "Debug" derives_ChunkState /\
+  ~ In "Debug" derives_Hasher /\ ~ In "Debug" derives_OutputReader.
+Proof. exact no_derived_debug. Qed.
+Theorem C17_src_debug_impls : debug_impls = ["Hash"; "ChunkState"; "Hasher"; "OutputReader"].
+Proof. exact debug_impls_are. Qed.
+Theorem C17_src_debug_fields :
+  debug_builder_Hasher = ("debug_struct", "Hasher") /\
+  debug_fields_Hasher = [("flags", "&self.chunk_state.flags"); ("platform", "&self.chunk_state.platform")] /\
+  debug_builder_ChunkState = ("debug_struct", "ChunkState") /\
+  debug_fields_ChunkState = [("count", "&self.count()"); ("chunk_counter", "&self.chunk_counter"); ("flags", "&self.flags");
+                             ("platform", "&self.platform")] /\
+  debug_builder_OutputReader = ("debug_struct", "OutputReader") /\
+  debug_fields_OutputReader = [("position", "&self.position()")] /\
+  debug_builder_Hash = ("debug_tuple", "Hash") /\ debug_fields_Hash = [("", "&hex")].
+Proof. exact debug_fields_are. Qed.
+Print Assumptions C17_src_zeroize_bodies.
+Print Assumptions C17_src_zeroize_wipes_every_field.
+Print Assumptions C17_src_zeroize_all_fields.
+Print Assumptions C17_src_no_derived_debug.
+Print Assumptions C17_src_debug_impls.
+Print Assumptions C17_src_debug_fields.
